@@ -100,7 +100,9 @@ def enc_seq(seq) -> str:
 def line_of(case) -> str:
     k = case['k']
     if k in ('G', 'V'):
-        return f"k={k} m={case['m']} op={case['op']} l={enc_seq(case['l'])} r={enc_seq(case['r'])}"
+        z = case.get('z')
+        return (f"k={k} m={case['m']} op={case['op']} l={enc_seq(case['l'])} r={enc_seq(case['r'])}"
+                + ('' if z is None else f' z={z}'))
     if k == 'B':
         return f"k=B m={case['m']} f={case['f']} l={enc_seq(case['l'])}"
     if k == 'L':
@@ -243,6 +245,68 @@ def canon_result(r) -> str:
     return '?' + repr(r)[:60]
 
 
+def make_context(root, variables, z):
+    """a fresh dynamic context; `z` = implicit timezone in minutes or None"""
+    from elementpath import XPathContext
+    from elementpath.datatypes import Timezone
+    if z is None:
+        return XPathContext(root=root, variables=variables)
+    return XPathContext(root=root, variables=variables, timezone=Timezone(pydt.timedelta(minutes=z)))
+
+
+def canon_exc(e) -> str:
+    from elementpath import ElementPathError
+    if isinstance(e, ElementPathError):
+        return 'ERR:' + (getattr(e, 'code', None) or '?').split(':')[-1]
+    return 'ERR:OTHER:' + type(e).__name__
+
+
+def object_state(objs) -> list:
+    """observable state of the variable values: repr, str and timezone of every object"""
+    out = []
+    for v in objs:
+        try:
+            out.append((type(v).__name__, repr(v), str(v), repr(getattr(v, 'tzinfo', None))))
+        except Exception as e:  # noqa
+            out.append(('?', type(e).__name__))
+    return out
+
+
+def run_history(hist):
+    """the same Python value objects go through all steps, each under a fresh context with its own
+    implicit timezone; returns per step (outcome, state-change message or None)"""
+    names = sorted(hist['vals'])
+    try:
+        pseudo = {'k': 'B', 'm': 'v2', 'f': 'boolean', 'l': [it for n in names for it in hist['vals'][n]]}
+        root, built = build_values(pseudo)
+    except Exception as e:  # noqa
+        return [('ERR:BUILD:' + type(e).__name__, None)] * len(hist['steps'])
+    objs, k = {}, 0
+    for n in names:
+        objs[n] = built['a'][k:k + len(hist['vals'][n])]
+        k += len(hist['vals'][n])
+    flat = [o for n in names for o in objs[n]]
+    state0 = object_state(flat)
+    res = []
+    for st in hist['steps']:
+        case = {'k': st['k'], 'm': st['m'], 'op': st['op']}
+        try:
+            tok = get_token(st['m'], expr_of(case))
+            ctx = make_context(root, {'a': objs[st['x']], 'b': objs[st['y']]}, st.get('z'))
+            out = canon_result(tok.evaluate(ctx))
+        except RecursionError:
+            out = 'ERR:OTHER:RecursionError'
+        except Exception as e:  # noqa
+            out = canon_exc(e)
+        state = object_state(flat)
+        msg = None
+        if state != state0:
+            i = next(j for j in range(len(state)) if state[j] != state0[j])
+            msg = f'value #{i} changed: {state0[i]} -> {state[i]}'
+        res.append((out, msg))
+    return res
+
+
 def run_impl(case) -> str:
     from elementpath import XPathContext, ElementPathError
     try:
@@ -256,7 +320,7 @@ def run_impl(case) -> str:
         # a singleton operand is bound as a scalar or as a one-item list (deterministically by its content)
         variables = {k: (v[0] if len(v) == 1 and (len(repr(v[0])) + len(case['m'])) % 2 == 0 else v)
                      for k, v in variables.items()}
-        ctx = XPathContext(root=root, variables=variables)
+        ctx = make_context(root, variables, case.get('z'))
         return canon_result(tok.evaluate(ctx))
     except ElementPathError as e:
         code = (getattr(e, 'code', None) or '?').split(':')[-1]
@@ -334,6 +398,7 @@ def rand_item(rng, t=None):
 
 
 TZS = [None, None, 0, 60, -60, 300, -300, 330, -570, 720, -720, 840, -840]
+ITZS = [None, None, 840, -300, 0, 330, -720, -840]      # implicit timezones of the dynamic context
 
 
 def boundary_item(rng, t, year=None):
@@ -458,7 +523,10 @@ def gen_cases(run: Run):
                     if k == 'V' and m == 'v1':
                         continue
                     for _ in range(reps):
-                        cases.append({'k': k, 'm': m, 'op': op, 'l': [rand_item(rng, ta)], 'r': [rand_item(rng, tb)]})
+                        c = {'k': k, 'm': m, 'op': op, 'l': [rand_item(rng, ta)], 'r': [rand_item(rng, tb)]}
+                        if ta in 'DTt' or tb in 'DTt':
+                            c['z'] = rng.choice(ITZS)
+                        cases.append(c)
     # (2) same-class pairs with values drawn to collide / be close (order properties, tolerance)
     for _ in range(run.scale(5000, 60000)):
         grp = rng.choice([['i', 'd'], ['f'], ['g'], ['f', 'g'], ['i', 'd', 'f', 'g'], ['s', 'u', 'a'], ['u'], ['b'],
@@ -492,7 +560,8 @@ def gen_cases(run: Run):
         a = boundary_item(rng, t, y)
         b = boundary_item(rng, t, y + rng.choice([0, 1, 1, 1, -1, 2, 3]))
         m = rng.choice(['v2c', 'v2', 'v31', 'v31'])
-        cases.append({'k': rng.choice(['V', 'G']), 'm': m, 'op': rng.choice(OPS), 'l': [a], 'r': [b]})
+        cases.append({'k': rng.choice(['V', 'G']), 'm': m, 'op': rng.choice(OPS), 'l': [a], 'r': [b],
+                      'z': rng.choice(ITZS)})
     # (3) sequences of length 0..3 (atoms of any type, element nodes)
     for _ in range(run.scale(15000, 200000)):
         m = rng.choice(MODES)
@@ -534,6 +603,132 @@ def gen_cases(run: Run):
                 cases.append({'k': 'L', 'm': m, 'f': f, 'l': rand_seq(rng, 2, 0.2, ['b', 'i', 's', 'f', 'q', 'u', 'd']),
                               'r': rand_seq(rng, 2, 0.2, ['b', 'i', 's', 'f', 'q', 'u', 'd'])})
     return cases
+
+
+# ------------------------------------------------------------------------- histories
+def gen_histories(run: Run):
+    """comparison histories: 3 variables bound to the same Python objects through 2..4 comparisons
+    (value / general, six operators, same-year and adjacent-year dates) under different contexts"""
+    rng = run.rng
+    hists = list(HISTORY_CORPUS)
+    for _ in range(run.scale(700, 8000)):
+        # targeted: a timezone-less value just after New Year, a zoned value just before it, a third value in
+        # another year; first a comparison without implicit timezone (any cached instant of `a` is the UTC one),
+        # then comparisons whose outcome depends on the implicit timezone
+        y = rng.choice([1999, 2000, 2001])
+        t = rng.choice(['T', 'T', 'D'])
+        if t == 'T':
+            a = ('T', (y + 1, 1, 1, rng.choice([0, 1, 2, 4, 6, 11]), rng.choice([0, 30]), 0), None)
+            b = ('T', (y, 12, 31, rng.choice([13, 18, 20, 22, 23]), rng.choice([0, 30]), 0), rng.choice([-300, -600, -720, -840, 0, 300]))
+            c = ('T', (y + rng.choice([-1, 0, 2, 3]), rng.choice([1, 6, 12]), 15, 12, 0, 0), rng.choice([None, None, 0]))
+        else:
+            a = ('D', (y + 1, 1, 1), None)
+            b = ('D', (y, 12, 31), rng.choice([-840, -720, -300, 0, 300]))
+            c = ('D', (y + rng.choice([-1, 0, 2, 3]), 6, 15), rng.choice([None, 0]))
+        if rng.random() < 0.5:
+            a, b = (a[0], b[1], None), (b[0], a[1], b[2])       # or the other way round: `a` before New Year
+        vals = {'a': [a], 'b': [b], 'c': [c]}
+        steps = [{'k': rng.choice(['V', 'G']), 'm': rng.choice(['v2', 'v31']), 'op': rng.choice(OPS),
+                  'x': rng.choice(['a', 'c']), 'y': rng.choice(['c', 'a', 'b']), 'z': None}]
+        for _ in range(rng.choice([1, 2, 3])):
+            x, yv = rng.choice([('a', 'b'), ('b', 'a'), ('a', 'b'), ('a', 'c'), ('a', 'a')])
+            steps.append({'k': rng.choice(['V', 'G']), 'm': rng.choice(['v2', 'v31', 'v2c']), 'op': rng.choice(OPS),
+                          'x': x, 'y': yv, 'z': rng.choice([840, -840, -300, -720, 330, None])})
+        hists.append({'vals': vals, 'steps': steps})
+    for _ in range(run.scale(1200, 15000)):
+        t = rng.choice(['T', 'T', 'T', 'D', 'D', 't'])
+        y = rng.choice([1999, 2000, 2001])
+        vals = {}
+        for n in 'abc':
+            it = boundary_item(rng, t, y + rng.choice([0, 0, 1, 1, -1, 2]))
+            if rng.random() < 0.55:          # timezone-less values are the ones a context can affect
+                it = (it[0], it[1], None)
+            vals[n] = [it]
+        r = rng.random()
+        if r < 0.15:
+            vals['c'] = [rand_item(rng, rng.choice(['u', 'i', 's', 'f', t]))]
+        elif r < 0.3:
+            vals['b'] = vals['b'] + [boundary_item(rng, t, y + rng.choice([0, 1]))]
+        steps = []
+        for _ in range(rng.choice([2, 3, 3, 4])):
+            x, yv = rng.choice('abc'), rng.choice('abc')
+            k = rng.choice(['V', 'G'])
+            if k == 'V' and (len(vals[x]) > 1 or len(vals[yv]) > 1) and rng.random() < 0.7:
+                k = 'G'
+            steps.append({'k': k, 'm': rng.choice(['v2', 'v31', 'v31', 'v2c']), 'op': rng.choice(OPS), 'x': x, 'y': yv,
+                          'z': rng.choice(ITZS)})
+        hists.append({'vals': vals, 'steps': steps})
+    return hists
+
+
+HISTORY_CORPUS = [
+    # a timezone-less value compared first without, then with an implicit timezone, across New Year
+    {'vals': {'a': [('T', (2001, 1, 1, 1, 0, 0), None)], 'b': [('T', (2000, 12, 31, 23, 0, 0), -300)],
+              'c': [('T', (2000, 6, 15, 0, 0, 0), None)]},
+     'steps': [{'k': 'V', 'm': 'v2', 'op': 'lt', 'x': 'a', 'y': 'c', 'z': None},
+               {'k': 'V', 'm': 'v2', 'op': 'lt', 'x': 'a', 'y': 'b', 'z': -300},
+               {'k': 'G', 'm': 'v31', 'op': 'gt', 'x': 'a', 'y': 'b', 'z': 840},
+               {'k': 'V', 'm': 'v2', 'op': 'lt', 'x': 'a', 'y': 'b', 'z': None}]},
+    {'vals': {'a': [('D', (2001, 1, 1), None)], 'b': [('D', (2000, 12, 31), -840)], 'c': [('D', (2001, 1, 1), 840)]},
+     'steps': [{'k': 'G', 'm': 'v2', 'op': 'le', 'x': 'a', 'y': 'b', 'z': 840},
+               {'k': 'V', 'm': 'v31', 'op': 'eq', 'x': 'a', 'y': 'c', 'z': None},
+               {'k': 'V', 'm': 'v31', 'op': 'eq', 'x': 'a', 'y': 'c', 'z': 840}]},
+]
+
+
+def step_case(hist, i):
+    st = hist['steps'][i]
+    return {'k': st['k'], 'm': st['m'], 'op': st['op'], 'l': hist['vals'][st['x']], 'r': hist['vals'][st['y']],
+            'z': st.get('z')}
+
+
+def history_json(hist, upto):
+    return {'history': {'values': {n: [case_json({'k': 'B', 'm': 'v2', 'f': 'boolean', 'l': [it]})['l'][0] for it in v]
+                                   for n, v in hist['vals'].items()},
+                        'steps': [dict(st, expr=expr_of({'k': st['k'], 'op': st['op']}).replace('$a', '$' + st['x'])
+                                       .replace('$b', '$' + st['y']) if st['x'] != 'b' else
+                                       expr_of({'k': st['k'], 'op': st['op']}).replace('$b', '$Y').replace('$a', '$' + st['x'])
+                                       .replace('$Y', '$' + st['y'])) for st in hist['steps'][:upto + 1]]},
+            'failing_step': upto, 'line': line_of(step_case(hist, upto))}
+
+
+_hist_by_key: dict = {}
+
+
+def compare_histories(run: Run, hists, count=True) -> None:
+    lines = [line_of(step_case(h, i)) for h in hists for i in range(len(h['steps']))]
+    answers = run.driver('C07', lines) if lines else []
+    st = run.stats
+    pos = 0
+    for h in hists:
+        res = run_history(h)
+        for i, (impl, msg) in enumerate(res):
+            ans = answers[pos]
+            pos += 1
+            model, allowed, trig = parse_answer(ans)
+            if model == 'UNSUPPORTED':
+                continue
+            spec = None if allowed is None else (impl if impl in allowed else '|'.join(allowed))
+            if count:
+                st.case({'history-step': line_of(step_case(h, i)), 'n': i}, nontrivial=True)
+                st.count('kind:H')
+                st.count(f'history:step{i}:z={"none" if h["steps"][i].get("z") is None else "set"}')
+            cj = None
+            if msg is not None or impl != model or (spec is not None and impl != spec):
+                cj = history_json(h, i)
+                _hist_by_key[cj['line'] + '#' + str(i)] = (h, i)
+            site = 'xpath_tokens/base.py implicit_timezone_operands + datatypes/datetime.py (state across comparisons)'
+            if msg is not None:
+                run.disagree(Disagreement(cj, 'mutated: ' + msg, 'unchanged', 'unchanged', what='history-state', site=site))
+                break
+            if impl != model:
+                run.disagree(Disagreement(cj, impl, model, spec, what='history:model-vs-code', site=site))
+                break
+            if spec is not None and impl != spec:
+                run.disagree(Disagreement(cj, impl, model, spec, what='history:spec', site=site, tags=trig))
+        else:
+            continue
+        pos += len(res) - i - 1
 
 
 # ---------------------------------------------------------------------- correspondence
@@ -652,10 +847,17 @@ def correspond(run: Run) -> None:
     run.stats.rule = (
         'request = (family G|V|B|L, parser mode, operator/function, operand sequences of 0..3 items: atoms of 17 '
         'types or element nodes).  Every ordered type pair x 6 operators x {general, value} x 4 parser modes at '
-        'least once (singletons), same-class value collisions, random sequences, every EBV shape; real elementpath '
-        'vs Lean model vs Lean spec.  distinct = distinct requests with non-empty operands')
+        'least once (singletons), same-class value collisions, random sequences, every EBV shape; dates/times '
+        'across year boundaries under implicit timezones; comparison HISTORIES (the same Python value objects '
+        'through 2..4 comparisons under different contexts, each step against the model of the ORIGINAL values, '
+        'object state checked after every step); real elementpath vs Lean model vs Lean spec.  '
+        'distinct = distinct requests with non-empty operands')
     for i in range(0, len(cases), 6000):
         compare(run, cases[i:i + 6000])
+    hists = gen_histories(run)
+    for i in range(0, len(hists), 3000):
+        compare_histories(run, hists[i:i + 3000])
+    run.stats.extra['histories'] = len(hists)
     pairs = run.stats.extra.pop('_pairs', set())
     tp = {(a, b) for (_, _, a, b) in pairs if a != 'n' and b != 'n'}
     run.stats.extra['ordered_type_pairs_covered'] = len(tp)
@@ -696,6 +898,25 @@ def search(run: Run):
 
 def shrink(d: Disagreement) -> Disagreement:
     """drop operand items one at a time while the same kind of disagreement persists"""
+    if isinstance(d.case, dict) and 'history' in d.case:
+        key = d.case['line'] + '#' + str(d.case['failing_step'])
+        if key not in _hist_by_key:
+            return d
+        h, i = _hist_by_key[key]
+        best = {'vals': h['vals'], 'steps': h['steps'][:i + 1]}
+        best_d = d
+        changed = True
+        while changed and len(best['steps']) > 1:
+            changed = False
+            for j in range(len(best['steps']) - 1):
+                cand = {'vals': best['vals'], 'steps': best['steps'][:j] + best['steps'][j + 1:]}
+                sub = Run(PROP, 'quick', 0)
+                compare_histories(sub, [cand], count=False)
+                hit = [x for x in sub.disagreements if x.what == d.what and x.case['failing_step'] == len(cand['steps']) - 1]
+                if hit:
+                    best, best_d, changed = cand, hit[0], True
+                    break
+        return best_d
     case = _case_by_line.get(d.case.get('line') if isinstance(d.case, dict) else None)
     if case is None:
         return d
